@@ -118,6 +118,8 @@ Dispatch(c, orc, a, b) ==
        ELSE IF Len(want) # Len(b.log) THEN "CoreExecutesFilteredProgram:count"
        ELSE "ok"
 
+ContOf2(cont, v) == IF v \in DOMAIN cont THEN cont[v] ELSE v
+
 (* ---- C13: cross-core dependencies are separated by a cluster barrier (trace form) ---- *)
 IsBarrier(e) == e.k = "op" /\ e.n = "snax.cluster_sync_op"
 RECURSIVE RootOf(_, _)
@@ -138,6 +140,11 @@ Writes(uf, e) ==
   ELSE IF e.n = "memref.dealloc" THEN Roots(uf, e.vals)
   ELSE IF e.n \in {"linalg.generic", "dart.operation", "dart.schedule", "dart.access_pattern", "snax_stream.streaming_region"}
        THEN Roots(uf, SubSeq(e.vals, NIns(e) + 1, Len(e.vals)))
+  ELSE {}
+Writes2(uf, e) ==    \* written cells themselves (not their roots)
+  IF e.k # "op" THEN {}
+  ELSE IF e.n = "memref.copy" THEN {e.vals[2]}
+  ELSE IF e.n = "linalg.generic" THEN {e.vals[i] : i \in (NIns(e) + 1)..Len(e.vals)}
   ELSE {}
 Conflict(uf, e1, e2) ==
   \/ Writes(uf, e1) \cap (Reads(uf, e2) \cup Writes(uf, e2)) # {}
@@ -161,6 +168,26 @@ Barriers(c, orc, a, b) ==
        ELSE IF ~TraceNoRace(b.log, b.uf, c.xk) THEN "BarrierBetweenCrossCoreDependency"
        ELSE "ok"
 
+(* ---- C15: software-pipelined double-buffered loop = sequential loop ---- *)
+IsStageEvent(e) == e.k = "op" /\ e.n \in {"memref.copy", "linalg.generic"}
+IsArgCell(uf, v) == LET r == RootOf(uf, v) IN r > 900000 /\ r < 1000000
+ArgWrites(uf, e) == {x \in Writes2(uf, e) : IsArgCell(uf, x)}
+StageObs(uf, e) == <<e.n, e.s[1], e.rt, ArgWrites(uf, e)>>
+RECURSIVE StageSub(_, _, _, _)
+StageSub(uf, log, tag, k) ==   \* observations of the stage operation `tag`, in execution order
+  IF k > Len(log) THEN <<>>
+  ELSE (IF IsStageEvent(log[k]) /\ log[k].s[1] = tag THEN <<StageObs(uf, log[k])>> ELSE <<>>) \o StageSub(uf, log, tag, k + 1)
+StageTags(log) == {log[k].s[1] : k \in {j \in DOMAIN log : IsStageEvent(log[j])}}
+
+Pipelined(c, orc, a, b) ==
+  IF b.fault # "none" THEN "B.fault:" \o b.fault
+  ELSE IF StageTags(a.log) # StageTags(b.log) THEN "EveryStageOfEveryIterationOnce"
+  ELSE IF \E t \in StageTags(a.log) : StageSub(b.uf, a.log, t, 1) # StageSub(b.uf, b.log, t, 1) THEN "EveryStageOfEveryIterationOnce"
+  ELSE IF \E x \in DOMAIN a.cont : IsArgCell(b.uf, x) /\ ContOf2(b.cont, x) # a.cont[x] THEN "FinalBufferContents"
+  ELSE IF \E x \in DOMAIN b.cont : IsArgCell(b.uf, x) /\ ContOf2(a.cont, x) # b.cont[x] THEN "FinalBufferContents"
+  ELSE IF ~TraceNoRace(b.log, b.uf, c.xk) THEN "NoRaceBetweenBarriers"
+  ELSE "ok"
+
 Judge(contract, c, orc, a, b) ==
   IF a.fault # "none" THEN "skipA:" \o a.fault
   ELSE CASE contract \in {"dedup", "overlap", "trace"} -> AccfgObs(a, b)
@@ -171,5 +198,6 @@ Judge(contract, c, orc, a, b) ==
          [] contract = "dma" -> DmaCopy(c, orc, a, b)
          [] contract = "dispatch" -> Dispatch(c, orc, a, b)
          [] contract = "barriers" -> Barriers(c, orc, a, b)
+         [] contract = "pipeline" -> Pipelined(c, orc, a, b)
          [] OTHER -> "machinery:unknown-contract"
 =============================================================================
